@@ -47,3 +47,20 @@ def _equal_respelled_duplicate(v, m):
     cl = v["input"]["clauses"]
     sp = [Specifier(c) for c in cl]
     return any(cl[i].strip() != cl[j].strip() and sp[i] == sp[j] for i in range(len(cl)) for j in range(i))
+
+
+@matcher("arbitrary_clause_then_comma_space")
+def _arbitrary_clause_then_comma_space(v, m):
+    """a requirement string in which an `===` clause is directly followed by a comma and then white space
+    (the SPECIFIER token swallows the comma, the next clause is then not a continuation)"""
+    import random
+    import re
+    from props.C08 import render
+    s = render(random.Random(v["input"]["seed"]), v["input"]["st"], loose=True)
+    return "rejected" in str(v.get("detail", "")) and re.search(r"===[^\s;)]*,[ \t]", s) is not None
+
+
+@matcher("equal_respelled_duplicate_in_requirement")
+def _equal_respelled_duplicate_in_requirement(v, m):
+    w = dict(v); w["input"] = {"clauses": v["input"]["st"]["clauses"]}
+    return _equal_respelled_duplicate(w, m)
